@@ -104,7 +104,7 @@ impl Prop for P05 {
             2 => *rng.pick(&[b':' as i64, b'a' as i64, 32, 9, 92, 39]),
             _ => -1,
         };
-        if idx % 199 == 11 {
+        if idx % 199 == 11 && idx < 3000 {
             // one item longer than any argument exec accepts: where the input is cut is still the delimiter's business
             // alone (that such an argument cannot be passed on is found out later, by the limiters - C04, C06)
             let d = *rng.pick(&[0u8, 10, b':']);
